@@ -1774,14 +1774,34 @@ class Module(ABC):
         if name in channel_names:
             channel_cols = list(channel.channel_params.keys())
             channel_cols += list(channel.channel_states.keys())
-            self.base.nodes.loc[self._nodes_in_view, channel_cols] = float("nan")
+            # Parameters (e.g. `vt`, `eK`) and currents (e.g. `i_K`) can be shared with
+            # other channels. They are only removed where no other channel needs them.
+            others = [c for c in self.base.channels if c._name != name]
+            rows = np.asarray(self._nodes_in_view)
+            for col in channel_cols:
+                users = [
+                    c._name
+                    for c in others
+                    if col in c.channel_params or col in c.channel_states
+                ]
+                still_used = (
+                    self.base.nodes.loc[rows, users].astype(bool).any(axis=1).to_numpy()
+                )
+                self.base.nodes.loc[rows[~still_used], col] = float("nan")
             self.base.nodes.loc[self._nodes_in_view, name] = False
 
             # only delete cols if no other comps in the module have the same channel
             if np.all(~self.base.nodes[name]):
                 self.base.channels.pop(all_channel_names.index(name))
-                self.base.membrane_current_names.remove(channel.current_name)
-                self.base.nodes.drop(columns=channel_cols + [name], inplace=True)
+                if channel.current_name not in [c.current_name for c in others]:
+                    self.base.membrane_current_names.remove(channel.current_name)
+                shared_cols = [
+                    col
+                    for col in channel_cols
+                    if any(col in c.channel_params or col in c.channel_states for c in others)
+                ]
+                unshared_cols = [col for col in channel_cols if col not in shared_cols]
+                self.base.nodes.drop(columns=unshared_cols + [name], inplace=True)
         else:
             raise ValueError(f"Channel {name} not found in the module.")
 
